@@ -152,6 +152,33 @@ class Hist:
         return True
 
 
+def during_save(h, build):
+    """Run `build()` (which appends ops to h.ops) and wrap the op that PROCESSES its last inbound line
+    into ("save_during", op): threaded flavour = the pump op that runs the queued line (the queue is
+    drained first), asyncio flavour = the recv itself.  The periodic save is then in progress - nodes
+    serialised, new file not yet renamed into place - when that line is handled."""
+    h.drain()
+    mark = len(h.ops)
+    build()
+    new = h.ops[mark:]
+    recvs = [i for i, o in enumerate(new) if o[0] == "recv"]
+    if not recvs:
+        return False
+    i = recvs[-1]
+    if h.sync:
+        pumps = [j for j in range(i + 1, len(new)) if new[j] == ("pump",)]
+        if pumps:
+            j = pumps[0]
+        else:
+            new.append(("pump",))
+            j = len(new) - 1
+        new[j] = ("save_during", ("pump",))
+    else:
+        new[i] = ("save_during", new[i])
+    h.ops[mark:] = new
+    return True
+
+
 def seed_network(h, nodes=None, rich=False):
     """present a few nodes with children and values."""
     r = h.r
@@ -300,10 +327,15 @@ def c06_directed(rng, cfg):
         for n in r.sample([1, 2, 7, 50, 199], r.choice([0, 1, 2])):
             h.node(n)
         h.drain()
-        if persist:
-            h.ops.append(("save",))
-        for _ in range(r.choice([1, 1, 2])):
-            h.idreq()
+        if persist and r.random() < 0.4:       # the id request is handled while a periodic save is in progress
+            h.battery(h.r.choice(list(h.known))) if h.known else h.node(9)   # something to save
+            during_save(h, h.idreq)
+            h.drain()
+        else:
+            if persist:
+                h.ops.append(("save",))
+            for _ in range(r.choice([1, 1, 2])):
+                h.idreq()
         if persist:
             h.ops.append(("restart",))
         for _ in range(r.choice([1, 2, 3])):
@@ -450,8 +482,14 @@ def c14_directed(rng, cfg, kind=None):
         if not h.known[n]:
             h.child(n, 1)
         h.drain()
-        h.ops.append(("save",))
-        h.state_change(kind if k == rounds - 1 else r.choice(kinds), n=n)
+        kd = kind if k == rounds - 1 else r.choice(kinds)
+        if r.random() < 0.35:                   # the change arrives while a periodic save is in progress
+            h.state_change(r.choice([x for x in kinds if x != "idreq"]), n=n)    # something to save
+            during_save(h, lambda: h.state_change(kd, n=n))
+            h.drain()
+        else:
+            h.ops.append(("save",))
+            h.state_change(kd, n=n)
         h.ops.append(("restart",))
     return h.ops
 
